@@ -28,6 +28,16 @@ def preSharing : List String :=
 theorem entry_points_lock :
     ∀ e ∈ lockTable, e.2.2 = true → e.2.1 = true ∨ e.1 ∈ preSharing := by decide
 
+/-- `ares_destroy` reads `channel->optmask` after its last unlock, when the event thread has been stopped and the
+    channel is being torn down: by contract no other thread may use the channel any more -/
+def outsideByDesign : List String := ["ares_destroy"]
+
+/-- **no access outside the locked region**: every public function that takes the channel lock dereferences the
+    channel only between its first lock and its last unlock (textual order, regenerated table).  The pinned tree had
+    one violator, `ares_search`, which read `channel->flags` before locking (finding F45-C11, a data race with the
+    reload thread confirmed by ThreadSanitizer, repaired). -/
+theorem accesses_inside_lock : ∀ f ∈ outsideLock, f ∈ outsideByDesign := by decide
+
 /-- the request entry points themselves are in the table and lock (guards against an extraction that
     silently finds nothing) -/
 theorem table_covers_entry_points :
